@@ -160,7 +160,8 @@ pub fn run_schedule(p: &Program, polls: &[(usize, usize)], threaded: bool, refer
     (obs, out)
 }
 
-/// chain producer -> relay -> last; events: 0 = deliver next message to the relay, 1 = relay poll, 2 = last poll
+/// chain producer -> relay -> last; events: 0 = deliver next message to the relay, 1 = relay poll, 2 = last poll,
+/// 3 = the end of the chain goes away (its store is dropped); the relay must keep working
 pub fn run_chain(p: &Program, events: &[(u8, usize)], reference: &[BddNode]) -> (Vec<Obs>, Vec<(String, String)>) {
     let mut out = vec![];
     let mut obs = vec![];
@@ -171,7 +172,7 @@ pub fn run_chain(p: &Program, events: &[(u8, usize)], reference: &[BddNode]) -> 
     let (s1, r1) = unbounded::<BddNode>();
     let (s2, r2) = unbounded::<BddNode>();
     let mut relay = Bdd::with_sender_receiver(s2, r1);
-    let mut last = Bdd::with_receiver(r2);
+    let mut last = Some(Bdd::with_receiver(r2));
     let mut delivered = 0;
     for (e, h) in events {
         match e {
@@ -182,10 +183,13 @@ pub fn run_chain(p: &Program, events: &[(u8, usize)], reference: &[BddNode]) -> 
                 }
             }
             1 => obs.push(poll(&mut relay, *h, delivered, reference, "relay", &mut out)),
-            _ => {
+            2 => {
                 let fwd = relay.nodes.len() - 2;
-                obs.push(poll(&mut last, *h, fwd, reference, "last", &mut out));
+                if let Some(last) = last.as_mut() {
+                    obs.push(poll(last, *h, fwd, reference, "last", &mut out));
+                }
             }
+            _ => last = None,
         }
     }
     while delivered < msgs.len() {
@@ -194,12 +198,14 @@ pub fn run_chain(p: &Program, events: &[(u8, usize)], reference: &[BddNode]) -> 
     }
     drop(s1);
     let _ = relay.recv(Term(usize::MAX));
-    let _ = last.recv(Term(usize::MAX));
     if relay.nodes[..] != reference[..] {
         out.push(("relay:final-table".into(), "drained relay differs from the producer".into()));
     }
-    if last.nodes[..] != reference[..] {
-        out.push(("last:final-table".into(), "drained end of the chain differs from the producer".into()));
+    if let Some(last) = last.as_mut() {
+        let _ = last.recv(Term(usize::MAX));
+        if last.nodes[..] != reference[..] {
+            out.push(("last:final-table".into(), "drained end of the chain differs from the producer".into()));
+        }
     }
     (obs, out)
 }
@@ -310,7 +316,7 @@ struct St {
 }
 
 pub fn run_c19(run: &Run) {
-    run.set_rule("producer programs = all operation sequences up to the stated length over 3 variables that create >= 1 node (deduplicated on the produced node sequence) + the two pinned test programs; schedules = every placement of up to P receiver polls at the N+1 cut points between individual node creations x every requested handle in {0..N+3, usize::MAX}; chains producer -> relay -> end with every order of deliveries, relay polls and end polls. After every poll the receiver must hold exactly a prefix of the producer's final table, 'found' iff the handle is present, never 'not found' while the message was already delivered; after draining all tables are identical. Non-trivial: schedules with >= 1 poll strictly between two node creations.");
+    run.set_rule("producer programs = all operation sequences up to the stated length over 3 variables that create >= 1 node (deduplicated on the produced node sequence) + the two pinned test programs; schedules = every placement of up to P receiver polls at the N+1 cut points between individual node creations x every requested handle in {0..N+3, usize::MAX}; chains producer -> relay -> end with every order of deliveries, relay polls and end polls, and with the end of the chain going away at every point (the relay must stay a correct mirror); producers whose receiver goes away at every point keep building the same table. After every poll the receiver must hold exactly a prefix of the producer's final table, 'found' iff the handle is present, never 'not found' while the message was already delivered; after draining all tables are identical. Non-trivial: schedules with >= 1 poll strictly between two node creations.");
     run.assume("crossbeam channels are FIFO; producer and receivers share nothing but the channel, so polls between message deliveries are all receiver-visible schedules; memory-level interleavings inside one channel operation are not modelled");
     let quick = run.quick();
     let mut progs = pinned();
@@ -335,6 +341,32 @@ pub fn run_c19(run: &Run) {
             let p = &progs[k as usize];
             let reference = &refs[k as usize];
             let n = reference.len() - 2;
+            // the receiving end goes away after j operations: the producer keeps building the same table
+            for j in 0..=p.ops.len() {
+                st.schedules += 1;
+                let r = guard(|| {
+                    let (ps, pr) = unbounded::<BddNode>();
+                    let mut b = Bdd::with_sender(ps);
+                    let mut pr = Some(pr);
+                    for (i, op) in p.ops.iter().enumerate() {
+                        if i == j {
+                            pr = None;
+                        }
+                        apply(&mut b, op);
+                    }
+                    drop(pr);
+                    b.nodes.clone()
+                });
+                let case = json!({"type": "stream", "program": prog_json(p), "polls": [], "threaded": false, "receiver_gone_after": j});
+                match r {
+                    Err(m) => run.violation("producer:panic", format!("{} after the receiving end went away after {} operations of {}", m, j, prog_json(p)), case),
+                    Ok(nodes) => {
+                        if nodes[..] != reference[..] {
+                            run.violation("producer:table-differs", format!("the producer's table differs from its table when run alone after the receiving end went away after {} operations of {}", j, prog_json(p)), case);
+                        }
+                    }
+                }
+            }
             for np in 0..=maxp {
                 // programs with many nodes: three polls only for short streams
                 if np == 3 && n > long3 {
@@ -424,27 +456,31 @@ pub fn run_c19(run: &Run) {
             let reference = &refs[k];
             let n = reference.len() - 2;
             let hs = handles(n);
-            let (pr, pl) = if quick { (1, 1) } else { (2, 1) };
-            // all sequences over the multiset {D x n, R x pr, L x pl}
-            let mut seqs: Vec<Vec<u8>> = vec![vec![]];
-            for _ in 0..(n + pr + pl) {
-                let mut next = vec![];
-                for s in &seqs {
-                    for e in 0..3u8 {
-                        let cnt = s.iter().filter(|x| **x == e).count();
-                        let cap = [n, pr, pl][e as usize];
-                        if cnt < cap {
-                            let mut s2 = s.clone();
-                            s2.push(e);
-                            next.push(s2);
+            // all sequences over the multiset {D x n, R x pr, L x pl, X x px} (X = the end of the chain goes away)
+            let configs: Vec<[usize; 3]> = if quick { vec![[1, 1, 0], [2, 0, 1]] } else { vec![[2, 1, 0], [2, 1, 1]] };
+            let mut seqs: Vec<Vec<u8>> = vec![];
+            for [pr, pl, px] in configs {
+                let mut part: Vec<Vec<u8>> = vec![vec![]];
+                for _ in 0..(n + pr + pl + px) {
+                    let mut next = vec![];
+                    for s in &part {
+                        for e in 0..4u8 {
+                            let cnt = s.iter().filter(|x| **x == e).count();
+                            let cap = [n, pr, pl, px][e as usize];
+                            if cnt < cap {
+                                let mut s2 = s.clone();
+                                s2.push(e);
+                                next.push(s2);
+                            }
                         }
                     }
+                    part = next;
                 }
-                seqs = next;
+                seqs.extend(part);
             }
             for s in &seqs {
                 // handle choices for the polls of this order
-                let npolls = s.iter().filter(|e| **e != 0).count();
+                let npolls = s.iter().filter(|e| **e == 1 || **e == 2).count();
                 let mut choice = vec![0usize; npolls];
                 loop {
                     if run.violations_so_far() > 100 {
@@ -454,8 +490,8 @@ pub fn run_c19(run: &Run) {
                     let events: Vec<(u8, usize)> = s
                         .iter()
                         .map(|e| {
-                            if *e == 0 {
-                                (0, 0)
+                            if *e == 0 || *e == 3 {
+                                (*e, 0)
                             } else {
                                 let h = hs[choice[pi]];
                                 pi += 1;
@@ -507,15 +543,7 @@ pub fn run_c19(run: &Run) {
         || 0u64,
         |st, k| {
             *st += 9 * 11 * 2 + 18;
-            run.heartbeat();
-            match guard(|| big_stream_case(sizes[k as usize])) {
-                Ok(found) => {
-                    for (kind, msg) in found {
-                        run.violation(&kind, format!("{} (stream of {} variable pairs)", msg, sizes[k as usize]), json!({"type": "big-stream", "pairs": sizes[k as usize]}));
-                    }
-                }
-                Err(m) => run.violation("stream:panic", m, json!({"type": "big-stream", "pairs": sizes[k as usize]})),
-            }
+            run.isolated_case(json!({"type": "big-stream", "pairs": sizes[k as usize]}), &format!("stream of {} variable pairs", sizes[k as usize]));
         },
         &|k| json!({"type": "big-stream", "pairs": sizes[k as usize]}),
     );
@@ -538,6 +566,26 @@ pub fn replay(c: &Value) -> Vec<(String, String)> {
     let mut b = Bdd::new();
     run_program(&mut b, &p);
     let reference = b.nodes.clone();
+    if let Some(j) = c["receiver_gone_after"].as_u64() {
+        let r = guard(|| {
+            let (ps, pr) = unbounded::<BddNode>();
+            let mut b = Bdd::with_sender(ps);
+            let mut pr = Some(pr);
+            for (i, op) in p.ops.iter().enumerate() {
+                if i as u64 == j {
+                    pr = None;
+                }
+                apply(&mut b, op);
+            }
+            drop(pr);
+            b.nodes.clone()
+        });
+        return match r {
+            Err(m) => vec![("producer:panic".into(), m)],
+            Ok(nodes) if nodes != reference => vec![("producer:table-differs".into(), "the producer's table differs from its table when run alone".into())],
+            _ => vec![],
+        };
+    }
     if c["type"] == "chain" {
         let events: Vec<(u8, usize)> = c["events"].as_array().map(|a| a.iter().map(|e| (e[0].as_u64().unwrap_or(0) as u8, e[1].as_u64().unwrap_or(0) as usize)).collect()).unwrap_or_default();
         return match guard(|| run_chain(&p, &events, &reference)) {
